@@ -40,14 +40,14 @@ theorem obisField_enc (o : List Nat) (h : o.length = 6) (rest : List Nat) :
   unfold obisField
   simp only [tOctet_eq, constByte_cons, bind_ok, takeN_append 6 o rest h]
 
-theorem isAscii_of_printable (s : List Nat) (h : printable s) : isAsciiOctets s = true := by
+theorem isAscii_of_printable (s : List Nat) (h : ascii7 s) : isAsciiOctets s = true := by
   unfold isAsciiOctets
   rw [List.all_eq_true]
   intro c hc
   have := h c hc
   simp only [decide_eq_true_eq]; omega
 
-theorem visibleString_enc (s : List Nat) (h : printable s) (rest : List Nat) :
+theorem visibleString_enc (s : List Nat) (h : ascii7 s) (rest : List Nat) :
     visibleString (s.length :: (s ++ rest)) = .ok s rest := by
   unfold visibleString
   simp only [u8_cons, bind_ok, takeN_append s.length s rest rfl, isAscii_of_printable s h, if_true]
